@@ -63,11 +63,149 @@ def render_opts(opts, rng=None):
     return out
 
 
-def argv_of(case):
+def argv_of(case, root=None):
+    """argv of the case; with `root`, file arguments become absolute paths (a name may start with '-')."""
     toks = render_opts(case["opts"])
     n_after = min(int(case.get("after", 0)), len(toks))
     first, last = toks[:len(toks) - n_after], toks[len(toks) - n_after:]
-    return list(case.get("extra", [])) + first + list(case["args"]) + last
+    args = list(case["args"]) if root is None else [os.path.join(root, a) for a in case["args"]]
+    return list(case.get("extra", [])) + first + args + last
+
+
+# ---------------------------------------------------------------------------------------------
+# hostile file names (round 3): `Filename` accepts only [a-zA-Z0-9_=+{}/.,~@-] (and no '~' at the start
+# of a component); everything else is refused with UnsafeFilenameError.  That whitelist is what keeps the
+# unquoted shell command line of DIFF / EXECUTE harmless.
+# ---------------------------------------------------------------------------------------------
+import re as _re
+import string as _string
+
+HOSTILE_CHARS = [c for c in _string.punctuation if c != "/"] + [" ", "\t", "\n", "\r", "\x7f", "\x01", "\u00e9",
+                                                                "\u65e5", "\u202e", "\U0001f600", "\u00a0"]
+LONG_NAME = "m" * 247 + ".py"          # '<name>.tmp.<pid>' exceeds NAME_MAX: the write fails for root too
+
+
+def documented_safe(path):
+    """The documented clean behaviour: names outside the whitelist are refused."""
+    return bool(path) and _re.search("[^a-zA-Z0-9_=+{}/.,~@-]", path) is None and _re.search("(^|/)~", path) is None
+
+
+def hostile_forms(ch):
+    """File names built around one character, next to a precious file 'v2.py'."""
+    return ["v1-%sv2.py" % ch, "%sv2.py" % ch, "a%s%sv2.py" % (ch, ch), "x.py%s" % ch, "v1%s.py" % ch]
+
+
+HOSTILE_CONFIGS = [["diff"], ["print"], ["actions", ["EXECUTE:echo"]], ["actions", ["IFCHANGED", "DIFF"]],
+                   ["replace"], ["diff-replace"], ["actions", ["EXECUTE:true", "PRINT"]], ["actions", ["DIFF", "REPLACE"]]]
+
+
+def hostile_case(name, cfg, tool="tidy-imports", extra=(), where="arg", k=0):
+    """One hostile name, as an argument or as a directory child, in a tree that also holds v2.py, other.py."""
+    tree = {"v2.py": ["file", content("C", 900 + k)], "other.py": ["file", content("C", 901 + k)]}
+    if where == "arg":
+        tree[name] = ["file", content("C", 902 + k)]
+        args = [name, "other.py"] if k % 2 else ["other.py", name]
+    else:
+        tree["d"] = ["dir"]
+        tree["d/" + name] = ["file", content("C", 902 + k)]
+        tree["d/ok.py"] = ["file", content("C", 903 + k)]
+        args = ["d"]
+    return dict(tool=tool, extra=list(extra), opts=[cfg], tree=tree, args=args, answers=["y", "y"], after=k % 2)
+
+
+def hostile_exhaustive(tier, rng):
+    """Every character of the hostile alphabet x action configurations x name forms (quick: one form and
+    two configurations per character, rotating, --diff always among them for the redirection characters)."""
+    out, k = [], 0
+    specials = ["-x.py", "--replace.py", "-", "~x.py", "x~y.py", "...py", LONG_NAME, "a" * 120 + ".py",
+                "v1-v2.py", "{a,b}.py", "a=b.py", "@x.py", "a+b,c.py"]
+    for ch in HOSTILE_CHARS:
+        forms = hostile_forms(ch)
+        for fi, form in enumerate(forms):
+            for ci, cfg in enumerate(HOSTILE_CONFIGS):
+                k += 1
+                if tier != "thorough" and not ((fi == k % len(forms) and ci in (0, (k // 5) % len(HOSTILE_CONFIGS)))
+                                               or (ch in "><|&;" and fi < 3 and ci in (0, 3))):
+                    continue
+                tool, extra = TOOLS[k % 3]
+                out.append(hostile_case(form, cfg, tool, extra, "arg" if (k // 3) % 3 else "child", k))
+    for si, nm in enumerate(specials):
+        for ci, cfg in enumerate(HOSTILE_CONFIGS):
+            k += 1
+            if tier != "thorough" and ci not in (si % len(HOSTILE_CONFIGS), 4):
+                continue
+            out.append(hostile_case(nm, cfg, "tidy-imports", (), "arg" if k % 2 else "child", k))
+    return out
+
+
+def safename_probe():
+    """K for the model's `safeName`: every printable ASCII character and the hostile alphabet in three
+    positions, plus special shapes."""
+    names = []
+    chars = [chr(i) for i in range(1, 128)] + HOSTILE_CHARS[-5:]
+    for c in chars:
+        if c == "/":
+            continue
+        names += ["/tmp/w/a%sb.py" % c, "/tmp/w/%sb.py" % c, "/tmp/w/d%s/b.py" % c]
+    names += ["/", "/tmp/~x", "/tmp/x~", "/~", "/tmp/a/~b/c.py", "/tmp/a~/b", "/tmp/" + "m" * 300, "/tmp/w/a b",
+              "/tmp/w/{a,b}.py", "/tmp/w/-r", "/tmp/w/a=b,c+d@e.py"]
+    return dict(probe="safename", names=names)
+
+
+# ---------------------------------------------------------------------------------------------
+# failure injection (round 3): one file of a multi-file run fails in each possible way
+# ---------------------------------------------------------------------------------------------
+WRITE_FAULTS = ["EACCES", "EROFS", "ENOSPC", "EDQUOT"]
+RW_FAULTS = ["RuntimeError", "MemoryError", "RecursionError", "SystemExit", "KeyboardInterrupt"]
+FAULT_KINDS = (["long"] + ["write:" + w for w in WRITE_FAULTS] + ["rw:" + r for r in RW_FAULTS]
+               + ["unparsable", "undecodable", "missing", "dangling"])
+FAULT_CONFIGS = [["replace"], ["diff-replace"], ["actions", ["REPLACE"]], ["actions", ["PRINT", "REPLACE"]],
+                 ["actions", ["IFCHANGED", "REPLACE", "PRINT"]], ["actions", ["REPLACE", "EXIT1"]],
+                 ["actions", ["EXECUTE:echo", "IFCHANGED", "REPLACE"]], ["actions", ["REPLACE", "REPLACE"]]]
+
+
+def fault_case(kind, pos, n, cfg, tool="tidy-imports", extra=(), pol=None, k=0):
+    """n regular files (changed / unchanged alternating) with the failing one at position `pos`."""
+    tree, args, faults = {}, [], {"write": {}, "rw": {}}
+    for i in range(n):
+        if i != pos:
+            nm = "f%d.py" % i
+            tree[nm] = ["file", content("C" if (i + k) % 3 else "U", 700 + 10 * i + k % 7)]
+            args.append(nm)
+            continue
+        nm = "bad%d.py" % i
+        if kind == "long":
+            nm = LONG_NAME
+            tree[nm] = ["file", content("C", 799)]
+        elif kind.startswith("write:"):
+            tree[nm] = ["file", content("C", 799)]
+            faults["write"][nm] = kind[6:]
+        elif kind.startswith("rw:"):
+            tree[nm] = ["file", content("C", 799)]
+            faults["rw"][nm] = kind[3:]
+        elif kind == "unparsable":
+            tree[nm] = ["file", content("X", 799)]
+        elif kind == "undecodable":
+            tree[nm] = ["file", content("B", 799)]
+        elif kind == "dangling":
+            tree[nm] = ["link", "nowhere.py"]
+        args.append(nm)
+    opts = [cfg] + ([["symlinks", pol]] if pol else [])
+    return dict(tool=tool, extra=list(extra), opts=opts, tree=tree, args=args, answers=[], after=k % 2, faults=faults)
+
+
+def fault_exhaustive(tier, rng):
+    out, k = [], 0
+    for ki, kind in enumerate(FAULT_KINDS):
+        for pi, (n, pos) in enumerate(((3, 1), (3, 0), (3, 2), (5, 2), (2, 0))):
+            for ci, cfg in enumerate(FAULT_CONFIGS):
+                k += 1
+                if tier != "thorough" and not (ci == (ki + pi) % len(FAULT_CONFIGS) or (ci == 0 and pos == 1)):
+                    continue
+                tool, extra = TOOLS[k % 3]
+                pol = [None, None, "skip", "follow", "replace"][k % 5]
+                out.append(fault_case(kind, pos, n, cfg, tool, extra, pol, k))
+    return out
 
 
 def build_tree(root, tree):
@@ -229,4 +367,28 @@ def gen_case(rng):
     after = rng.choice([0, 0, 0, 1, 2])
     if rng.random() < 0.03:
         opts.insert(rng.randint(0, len(opts)), ["symlinks", "bogus"])
-    return dict(tool=tool, extra=list(extra), opts=opts, tree=tree, args=args, answers=answers, after=after)
+    case = dict(tool=tool, extra=list(extra), opts=opts, tree=tree, args=args, answers=answers, after=after)
+    r = rng.random()
+    if r < 0.10:
+        # a hostile name among ordinary arguments (or inside a directory argument)
+        ch = rng.choice(HOSTILE_CHARS)
+        nm = rng.choice(hostile_forms(ch) + ["-%s.py" % ch, LONG_NAME])
+        tree.setdefault("v2.py", ["file", content("C", 990)])
+        dirs = [a for a in args if tree.get(a, [""])[0] == "dir"]
+        if dirs and rng.random() < 0.5:
+            tree[dirs[0] + "/" + nm] = ["file", content("C", 991)]
+        else:
+            tree[nm] = ["file", content("C", 991)]
+            args.insert(rng.randint(0, len(args)), nm)
+    elif r < 0.22:
+        # a write / rewriter fault on one regular file argument
+        files = [a for a in args if tree.get(a, [""])[0] == "file"]
+        if files:
+            a = rng.choice(files)
+            faults = {"write": {}, "rw": {}}
+            if rng.random() < 0.6:
+                faults["write"][a] = rng.choice(WRITE_FAULTS)
+            else:
+                faults["rw"][a] = rng.choice(RW_FAULTS)
+            case["faults"] = faults
+    return case
